@@ -126,7 +126,7 @@ pub fn exhaustive(ctx: &Ctx, rep: &mut Report) {
     // batch inversion with zeros at every position
     use rand::Rng;
     let mut rng = crate::util::rng_for(ctx.seed, "c12-batch");
-    let nb = ctx.sz(20_000, 2_000_000);
+    let nb = ctx.sz(20_000, 20_000_000);
     let r = par_for(16, ncpu(), |w, rep| {
         let mut rng = crate::util::rng_for(ctx.seed, &format!("c12-batch-{}", w));
         for it in 0..nb / 16 {
